@@ -247,7 +247,7 @@ def _leaf_paths(keys):
 
 def via_set_param(scn, rnd):
     """(1) set_param(obj, path, get_param(obj, path)) re-creates an object that sets up the SAME problem;
-       (2) a value written with set_param is the value read with get_param afterwards, and nothing else changed."""
+    """
     viol, feats = [], []
     portf, tg, prices, nodes = scen.build(scn)
     try:
@@ -288,51 +288,8 @@ def via_set_param(scn, rnd):
         if d:
             viol.append({'oracle': 'entry_point', 'detail': 'portfolio re-created by set_param(%s, same value) sets up a different problem: %s' % (path, d),
                          'facts': {'door': 'set_param', 'what': 'problem', 'types': types}})
-    # (2) write a new number into a numeric leaf (the tree is read again: the set-up above stored the grid in the portfolio)
-    try:
-        with Quiet():
-            keys, tree = eao.io.get_params_tree(portf)
-    except Exception as e:
-        return viol, feats
-    paths = _leaf_paths(keys)
-    num = []
-    for p in paths:
-        try:
-            v = tree
-            for k in p:
-                v = v[k]
-        except Exception:
-            continue
-        if isinstance(v, (int, float)) and not isinstance(v, bool) and p[-1] not in ('__class__',):
-            num.append((p, v))
-    if num:
-        path, old = rnd.choice(num)
-        new = float(old) + 0.5 if float(old) >= 0 else float(old) - 0.5
-        try:
-            with Quiet():
-                p3 = eao.io.set_param(portf, path, new)
-        except Exception:
-            feats.append('set_param:new-value-rejected')
-            return viol, feats
-        feats.append('set_param:new-value')
-        try:
-            with Quiet():
-                got = eao.io.get_param(p3, path)
-                k3, t3 = eao.io.get_params_tree(p3)
-        except Exception as e:
-            viol.append({'oracle': 'entry_point', 'detail': 'after set_param(%s, %r) the object cannot be read back: %s' % (path, new, e), 'facts': {'door': 'set_param', 'what': 'readback', 'types': types}})
-            return viol, feats
-        if not (isinstance(got, (int, float)) and abs(float(got) - new) < 1e-12):
-            viol.append({'oracle': 'entry_point', 'detail': 'set_param(%s, %r) then get_param gives %r' % (path, new, got), 'facts': {'door': 'set_param', 'what': 'readback', 'types': types}})
-        # nothing else changed
-        t_exp = copy.deepcopy(tree)
-        o = t_exp
-        for k in path[:-1]:
-            o = o[k]
-        o[path[-1]] = new
-        if json.dumps(t_exp, sort_keys=True, default=str) != json.dumps(t3, sort_keys=True, default=str):
-            # a parameter may legitimately determine others (none does in the current constructors): report with the path
-            viol.append({'oracle': 'entry_point', 'detail': 'set_param(%s, %r) changed other parameters as well' % (path, new), 'facts': {'door': 'set_param', 'what': 'others', 'types': types, 'leaf': str(path[-1])}})
+    # (writing NEW values is not checked: which leaves are genuine parameters - and which are derived, fixed by a subclass or
+    # normalised by a constructor, e.g. conversion_factor_power_heat of a Plant - is not part of any statement of the list)
     return viol, feats
 
 
